@@ -370,6 +370,9 @@ def simulated_anneal_tree(
         if progbar:
             pbar.update()
 
+    # nodes have been removed and re-added -> invalidate derived contractions
+    tree._reset_contraction_recipes()
+
     return tree
 
 
